@@ -261,6 +261,8 @@ def run_driver(catalog, cases, mode="eager", want=("assess", "undo", "alt")):
     from . import gfi_driver
     for j, c in enumerate(cases):
         c["want"] = want
+    for j, c in enumerate(cases):     # every 4th history passes Python ints / bools as arguments where it runs eagerly
+        c.setdefault("concrete", (j // 3) % 4 == 1 and c["pid"] not in SLOW and c["pid"] not in ("MIt", "MItF", "MItF1"))
     for j, c in enumerate(cases):     # control-flow programs recompile on every eager call: run them jitted (cached), 1 in 8 eagerly
         c.setdefault("mode", "eager" if (c["pid"] in EAGER or j % 8 == 0) else "jit")
     by_pid = {}
